@@ -57,11 +57,9 @@ class dyPolyChordOptimizer(PolyChordOptimizer):
             # print(type(cube))
             cube = [0.0]*ndim
 
-            for idx, bounds in enumerate(self.fit_boundaries):
+            for idx, priors in enumerate(self.fitting_priors):
                 # print(idx,self.fitting_parameters[idx])
-                bound_min, bound_max = bounds
-                cube[idx] = (hypercube[idx] *
-                             (bound_max-bound_min)) + bound_min
+                cube[idx] = priors.sample(hypercube[idx])
                 #print('CUBE idx',cube[idx])
             # print('-----------')
             return cube
